@@ -28,6 +28,24 @@ package mysql
 // A seqid predicate the evaluator does not understand is reported as class
 // "predicate-not-understood" (never a violation, never non-trivial).
 //
+// The two queries are in addition judged ROW BY ROW (row evaluator, c04sSelectRows: comparisons,
+// BETWEEN, IN, IS [NOT] NULL, AND / OR / NOT with SQL's precedence and three-valued logic,
+// parentheses, aliases resolved through the FROM clause): the whole WHERE clause is evaluated on a
+// synthetic table and the selected rows are compared with the rows C04 demands.
+//
+//	deletion log  dellog rows {queried topic, another topic} x {deletedfor 0, the querying user's
+//	              number (store.DecodeUid), another user's} x delid (c04sDomain); demanded: queried
+//	              topic AND deletedfor in {0, user} AND since <= delid < before
+//	              sql-dellog-query-other-topic / -other-user / -extra / -missing
+//	history       messages rows, as joined with the user's soft deletions (the ON clause itself is not
+//	              evaluated): {queried topic, another} x {live: delid=0, deletedat NULL; hard-deleted:
+//	              delid=3, deletedat set} x {d.* NULL; d.* = a soft deletion of the user covering the
+//	              message} x seqid; demanded: queried topic AND live AND d.* NULL AND since <= seqid < before
+//	              sql-history-other-topic / -shows-hard-deleted / -shows-soft-deleted / -extra-ids / -missing-ids
+//
+// A WHERE clause the row evaluator cannot parse or that names a column the rows do not model is
+// class "<op>-rows-not-understood"; the one-column evaluator then still judges it if it can.
+//
 // Failing statements (c04sFaultSweep): "a delete request ... hides exactly the union" and "the
 // deletion log covers exactly the IDs deleted" also speak about a delete that is reported as done
 // although one of its statements failed. Every delete case whose fault-free run was judged clean is
